@@ -26,6 +26,8 @@ impl OperationControl for Nothing {
         _matcher: &ReMatcher,
         position: usize,
     ) -> Box<dyn Iterator<Item = usize>> {
+        #[cfg(regexml_verif)]
+        crate::verif::tick();
         Box::new(std::iter::once(position))
     }
 }
